@@ -63,7 +63,7 @@ func (e *c06Env) mux(limit int) (*larking.Mux, *tImpl) {
 	if m, ok := e.muxes[limit]; ok {
 		return m, e.impls[limit]
 	}
-	var opts []larking.MuxOption
+	opts := customOpts() // a custom codec ("rev") and a custom compressor ("x-rot") are registered too
 	if limit > 0 {
 		opts = append(opts, larking.MaxReceiveMessageSizeOption(limit))
 	}
@@ -102,6 +102,12 @@ func (e *c06Env) encode(tc *c06Case) (stream []byte, ends []int, msgs []proto.Me
 		case "grpc+json":
 			js, _ := protojson.Marshal(m)
 			enc = wire.GRPCFrame(0, js)
+		case "grpc+rev": // custom codec selected by the content-subtype
+			rb, _ := revCodec{}.Marshal(m)
+			enc = wire.GRPCFrame(0, rb)
+		case "grpc-xrot": // custom compressor selected by grpc-encoding
+			pb, _ := proto.Marshal(m)
+			enc = wire.GRPCFrame(1, rotBytes(pb))
 		case "http-json", "http-json-gzip":
 			enc, _ = protojson.Marshal(m)
 		case "http-proto-gzip":
@@ -214,6 +220,29 @@ func (e *c06Env) exec(tc *c06Case) c06Result {
 	case "grpc+json":
 		codec = "json"
 		res = doGRPC(m, full, "application/grpc+json", nil, body)
+	case "grpc+rev":
+		codec = "rev"
+		res = doGRPC(m, full, "application/grpc+rev", nil, body)
+	case "grpc-xrot":
+		res = doGRPC(m, full, "application/grpc", http.Header{"Grpc-Encoding": {"x-rot"}}, body)
+		// un-rot the reply frames for the common decoder
+		if !res.Panicked {
+			res.Msgs, res.ParseErr = nil, ""
+			frames, rest := wire.ParseFrames(res.Body)
+			if len(rest) > 0 {
+				res.ParseErr = fmt.Sprintf("%d trailing bytes do not form a frame", len(rest))
+			}
+			for _, f := range frames {
+				switch {
+				case f.Flag == 1 && res.Header.Get("Grpc-Encoding") == "x-rot":
+					res.Msgs = append(res.Msgs, rotBytes(f.Payload))
+				case f.Flag == 0:
+					res.Msgs = append(res.Msgs, f.Payload)
+				default:
+					res.ParseErr = fmt.Sprintf("frame flag %d with grpc-encoding %q", f.Flag, res.Header.Get("Grpc-Encoding"))
+				}
+			}
+		}
 	case "web":
 		res = doWeb(m, full, "application/grpc-web+proto", nil, body)
 	case "web-gzip":
@@ -335,9 +364,12 @@ func (e *c06Env) exec(tc *c06Case) c06Result {
 	for i, p := range payloads {
 		got := dynamicpb.NewMessage(e.t.rsp)
 		var err error
-		if codec == "json" {
+		switch codec {
+		case "json":
 			err = protojson.Unmarshal(p, got)
-		} else {
+		case "rev":
+			err = revCodec{}.Unmarshal(p, got)
+		default:
 			err = proto.Unmarshal(p, got)
 		}
 		if err != nil || !proto.Equal(got, wantOut[i]) {
@@ -345,7 +377,7 @@ func (e *c06Env) exec(tc *c06Case) c06Result {
 		}
 	}
 	switch tc.Transport {
-	case "grpc", "grpc-gzip", "grpc+json", "web", "web-gzip", "webtext":
+	case "grpc", "grpc-gzip", "grpc+json", "grpc+rev", "grpc-xrot", "web", "web-gzip", "webtext":
 		if res.Status == nil || res.Status.Code != 0 {
 			return fail("final-status", fmt.Sprintf("want grpc-status 0, got %+v", res.Status))
 		}
@@ -505,7 +537,7 @@ func c06Bases(thorough bool) []c06Base {
 		seqs = append(seqs, []int{300})
 	}
 	outs := [][]int{{}, {0}, {3}, {3, 0, 70}}
-	for _, tr := range []string{"grpc", "grpc-gzip", "grpc+json", "web", "web-gzip", "webtext", "http-json", "http-proto", "http-json-gzip", "http-proto-gzip", "ws", "ws-frag"} {
+	for _, tr := range []string{"grpc", "grpc-gzip", "grpc+json", "grpc+rev", "grpc-xrot", "web", "web-gzip", "webtext", "http-json", "http-proto", "http-json-gzip", "http-proto-gzip", "ws", "ws-frag"} {
 		for _, sh := range []string{"cs", "bidi", "pingpong", "ss"} {
 			if strings.HasSuffix(tr, "-gzip") && strings.HasPrefix(tr, "http-") && sh == "ss" {
 				continue // a unary gzip body is C03's subject
@@ -568,7 +600,7 @@ func isWS(transport string) bool { return transport == "ws" || transport == "ws-
 
 func runC06(c *Ctx) {
 	r := c.Run
-	r.Rule("transport{gRPC identity/gzip/+json, gRPC-web identity/gzip, gRPC-web-text, HTTP JSON stream, HTTP varint-delimited protobuf, both also inside a gzip Content-Encoding (complete streams only), HttpBody chunking (limits 4, 8, 64; uploads of every length 0..3·limit+1), AsHTTPBodyReader/Writer passthrough, WebSocket with whole and with fragmented (2-4 frames) messages} × shape{client-, server-, bidi batch, bidi ping-pong} × client sequence (0..3 messages, payloads 0/1/5/300) × handler sequence (0..3 replies) × read schedule (all 2^(n-1) partitions for streams <= 10 (thorough 13) bytes; uniform chunk sizes, every single cut and every pair of cuts (bounded) beyond) × EOF convention × truncation at every offset followed by EOF or a connection error; plus 3-message streams whose 1st/2nd/3rd message exceeds a receive limit of 40 with a field boundary exactly at the limit (9 transports); states = (transport, bytes consumed, messages delivered); distinct = (transport, shape, sequence) bases")
+	r.Rule("transport{gRPC identity/gzip/+json/+a custom codec/a custom compressor, gRPC-web identity/gzip, gRPC-web-text, HTTP JSON stream, HTTP varint-delimited protobuf, both also inside a gzip Content-Encoding (complete streams only), HttpBody chunking (limits 4, 8, 64; uploads of every length 0..3·limit+1), AsHTTPBodyReader/Writer passthrough, WebSocket with whole and with fragmented (2-4 frames) messages} × shape{client-, server-, bidi batch, bidi ping-pong} × client sequence (0..3 messages, payloads 0/1/5/300) × handler sequence (0..3 replies) × read schedule (all 2^(n-1) partitions for streams <= 10 (thorough 13) bytes; uniform chunk sizes, every single cut and every pair of cuts (bounded) beyond) × EOF convention × truncation at every offset followed by EOF or a connection error; plus 3-message streams whose 1st/2nd/3rd message exceeds a receive limit of 40 with a field boundary exactly at the limit (9 transports); states = (transport, bytes consumed, messages delivered); distinct = (transport, shape, sequence) bases")
 	r.Assume("an empty client stream is sent as an empty chunked body (Content-Length unknown)", "client-streaming with a unary reply over WebSocket is excluded: the only way for a WebSocket client to end its stream is to close, which also ends the reply channel", "HTTP/2 flow control and real half-close are seen only in the conformance runs")
 	fullMax := 10
 	if c.Thorough() {
